@@ -102,7 +102,25 @@ func c18Case(ctx context.Context, o *out, dir string, id int, tag string, stream
 	if err := os.MkdirAll(tmp, 0o755); err != nil {
 		return err
 	}
+	// longer files of an earlier dump with the same prefix are already there: a file DumpCSV writes must be
+	// replaced as a whole (files it does not touch are not its output and are removed again before the listing)
+	stale := bytes.Repeat([]byte("stale,row,of,an,earlier,dump\n"), 2048)
+	if id%2 == 0 {
+		for n := 0; n < 6; n++ {
+			if err := os.WriteFile(filepath.Join(tmp, fmt.Sprintf("p.%d.csv", n)), stale, 0o600); err != nil {
+				return err
+			}
+		}
+	}
 	derr := ftdc.DumpCSV(ctx, ftdc.ReadChunks(ctx, bytes.NewReader(stream)), filepath.Join(tmp, "p"))
+	if id%2 == 0 {
+		for n := 0; n < 6; n++ {
+			fn := filepath.Join(tmp, fmt.Sprintf("p.%d.csv", n))
+			if b, err := os.ReadFile(fn); err == nil && bytes.Equal(b, stale) {
+				os.Remove(fn)
+			}
+		}
+	}
 	files := []string{}
 	for n := 0; ; n++ {
 		b, err := os.ReadFile(filepath.Join(tmp, fmt.Sprintf("p.%d.csv", n)))
@@ -137,7 +155,7 @@ func c18TextCase(ctx context.Context, o *out, id int, text []byte) {
 // ---------------------------------------------------------------- generators
 
 // keys with CSV metacharacters and other bytes that encoding/csv treats specially
-var c18Keys = []string{",", "\"", "\n", " ", "a,b", "\"q\"", "x\ny", " lead", "trail ", "\ttab", "\r", "a\rb", "end\r",
+var c18Keys = []string{"#", "#c", "# note", ";", "a#b", ",", "\"", "\n", " ", "a,b", "\"q\"", "x\ny", " lead", "trail ", "\ttab", "\r", "a\rb", "end\r",
 	"\\.", "\\.x", "a\"", "\"\"", ",,", "\n\n", "a\n", "\nb", "q\"\"q", "é", " nbsp", " em", "　cjk", "\u0085nel",
 	"\xc2", "\xff", "\xe2\x80", "-5", "12", "+7", "k k", "k\"k,k\nk"}
 
